@@ -202,7 +202,7 @@ def hyp_settings(max_examples: int, **kw):
     )
 
 
-DRIVE_CHUNK = 400
+DRIVE_CHUNK = 250
 
 
 def drive(strategy, fn: Callable[[Any], None], seed: int, max_examples: int, chunk: int | None = None) -> None:
@@ -221,6 +221,7 @@ def drive(strategy, fn: Callable[[Any], None], seed: int, max_examples: int, chu
 
     done = 0
     i = 0
+    cnt = [0]
     while done < max_examples:
         n = min(chunk or DRIVE_CHUNK, max_examples - done)
 
@@ -229,9 +230,11 @@ def drive(strategy, fn: Callable[[Any], None], seed: int, max_examples: int, chu
         @given(strategy)
         def _t(case):
             fn(case)
+            cnt[0] += 1
+            if cnt[0] % 50 == 0:
+                gc.collect()  # most of what a run holds is cyclic garbage of finished examples; the cyclic collector alone lets it pile up to GBs
 
         _t()
         done += n
         i += 1
-        if i % 4 == 0:
-            gc.collect()
+        gc.collect()
